@@ -8,7 +8,7 @@ ID = 'C17'
 LEVEL = 'other'
 EXPLANATION = ('Static rules over every Subscription impl: K1 a composite answers is_closed() conjunctively — every part that unsubscribe() '
                'tears down is asked, and true is returned only when all of them answered true; K2 append() on an already unsubscribed '
-               'composite unsubscribes the late addition instead of dropping it; K4 unsubscribe() empties the closed-means-None slot on every path (precondition of K2 and of "any remaining handle reports closed"); K5 task handles: the task body runs under the handle cell, so unsubscribe()/is_closed() cannot overtake a running body (same rule as C19.H3); K3 the cells whose emptiness means "closed" are never '
+               'composite unsubscribes the late addition instead of dropping it; K4 unsubscribe() empties the closed-means-None slot on every path (precondition of K2 and of "any remaining handle reports closed"); K5 task handles: the task body runs under the handle cell, so unsubscribe()/is_closed() cannot overtake a running body (same rule as C19.H3); K6 a part leaves a MultiSubscription only through unsubscribe() (or when it is an empty slot / already closed): no other method takes, pops, removes or clears live parts, otherwise is_closed() turns true and unsubscribe() returns while that part still runs; K7 every task an operator schedules is registered with the subscription it handed back (same rule as C02.U1), otherwise is_closed() is true while the task is still to run; K3 the cells whose emptiness means "closed" are never '
                're-filled after construction and keep_running is only ever cleared (no resurrection: true never reverts to false). '
                'Decides the per-type protocol; does not decide history-level monotonicity of MultiSubscription::is_closed across appends.')
 ASSUMPTIONS = ['a subscription type outside the crate (user-defined) follows the same contract']
@@ -32,12 +32,15 @@ CONTROLS = [
     'K2|verif_controls::LeakyMulti::append',
     'K3|<verif_controls::Reopenable<O>>::reopen',
     'K4|<verif_controls::LazyMulti as Subscription>::unsubscribe',
+    'K6|<verif_controls::ForgetfulMulti>::release',
+    'K6|<verif_controls::ForgetfulMulti>::forget_last',
+    'K6|<verif_controls::ForgetfulMulti>::keep_even',
 ]
-CONTROLS_OK = ['K1|<verif_controls::GoodPair<A, B> as Subscription>::is_closed']
+CONTROLS_OK = ['K1|<verif_controls::GoodPair<A, B> as Subscription>::is_closed', 'K6|<verif_controls::ForgetfulMulti>::prune']
 
 
 def check(cx):
-    return k1(cx) + k2(cx) + k3(cx) + k4(cx) + k5(cx)
+    return k1(cx) + k2(cx) + k3(cx) + k4(cx) + k5(cx) + k6(cx) + k7(cx)
 
 
 def _parts(g, names):
@@ -280,4 +283,107 @@ def k5(cx):
         if cx.control:
             continue
         out.append(Finding(ID, 'K5', f.key, f.ok, f.msg, f.loc, f.witness))
+    return out
+
+
+COMPOSITES = ['subscription::MultiSubscription', 'subscription::MultiSubscriptionThreads']
+_REMOVERS = ('remove', 'pop', 'swap_remove', 'clear', 'truncate', 'drain', 'split_off', 'pop_front', 'pop_back')
+
+
+def k6(cx):
+    """parts of a composite are only let go by unsubscribe(): in every other method no live part may be taken out of,
+    popped / removed from, or cleared out of the parts list (dropping a subscription handle does not cancel it)"""
+    from ..core import TAKE
+    F = cx.facts
+    res = []
+    n = 0
+    tags = ['verif_controls::ForgetfulMulti'] if cx.control else COMPOSITES
+    for fn in sorted(F.fns.values(), key=lambda f: f['key']):
+        if fn['kind'] in ('closure', 'coroutine'):
+            continue
+        im = F.impl_of_fn(fn)
+        if im is None or roles.impl_tag(cx, im) not in tags:
+            continue
+        if im.get('trait') == 'subscription::Subscription' and fn.get('name') == 'unsubscribe':
+            continue
+        if im.get('trait') and im.get('trait') != 'subscription::Subscription':
+            continue
+        n += 1
+        g = cx.graph(fn['key'])
+        bad = None
+        self_rooted = lambda e: mentions(e, lambda x: x[0] == 'arg' and x[1] == 1)
+        for x in g.nodes:
+            if x['kind'] != 'call' or not x['args']:
+                continue
+            a0 = x['args'][0]
+            tail = x['name'].rsplit('::', 1)[-1]
+            if x['name'] in TAKE and self_rooted(a0):
+                root, steps = access_path(a0)
+                whole_cell = root[0] == 'arg' and root[1] == 1 and steps and steps[-1] == '@' and all(not st.startswith(('@', '!', 'as ', '[')) for st in steps[:-1])
+                if not whole_cell:
+                    bad = (x, 'takes a part out of its slot and drops it')
+            elif tail in _REMOVERS and x['name'].startswith(('std::vec::Vec', 'smallvec::SmallVec', 'std::collections::VecDeque')) and self_rooted(a0):
+                bad = (x, 'removes parts with %s()' % tail)
+            elif tail in ('retain', 'retain_mut') and self_rooted(a0):
+                why = _retain_drops_live(cx, g, x)
+                if why:
+                    bad = (x, why)
+            if bad:
+                break
+        label = cx.label(fn)
+        if bad:
+            res.append(Finding(ID, 'K6', label, False,
+                               '%s without unsubscribing them: the composite then reports closed and its unsubscribe() returns while that part (e.g. a scheduled task) is still alive and will deliver' % bad[1],
+                               g.loc(bad[0]), [node_desc(g, bad[0])]))
+        else:
+            res.append(Finding(ID, 'K6', label, True, 'lets go of no live part', fn['span']))
+    if not cx.control and n < 8:
+        res.append(Finding(ID, 'K6', 'floor', False, 'expected the methods of the two MultiSubscription types, found %d' % n))
+    return res
+
+
+def _retain_drops_live(cx, g, call):
+    """reason if the retain predicate can answer a constant false for an element it has not shown to be empty / closed"""
+    F = cx.facts
+    for a, aty in zip(call['args'], call.get('arg_tys') or []):
+        if aty is None:
+            continue
+        from ..graph import _closure_def_of_type
+        cd = _closure_def_of_type(F, aty)
+        if not cd or cd not in F.fns:
+            continue
+        cg = cx.graph(cd, inline=False)
+
+        def step(st, nd, lab):
+            d, v = sw_value(lab)
+            if d is not None:
+                dd = strip(d)
+                neg = 0
+                while dd[0] == 'un' and dd[1] == 'Not':
+                    dd = strip(dd[2])
+                    neg ^= 1
+                if dd[0] == 'discr' and v == 0:
+                    st = 'justified'
+                if dd[0] == 'call' and dd[1].endswith(('is_some',)) and (v ^ neg) == 0:
+                    st = 'justified'
+                if dd[0] == 'call' and (dd[1] in IS_CLOSED_NAMES or dd[1].endswith(('is_none', 'is_closed'))) and (v ^ neg) == 1:
+                    st = 'justified'
+            if nd['kind'] == 'assign' and nd['lhs'][0] == 'local' and nd['lhs'][1] == 0 and const_bool(nd['rhs']) is False and st != 'justified':
+                return 'BAD'
+            return st
+        reached, pred = explore(cg, 'start', step)
+        if any(k[1] == 'BAD' for k in reached):
+            return 'retain() drops parts its predicate has not shown to be empty or closed'
+    return None
+
+
+def k7(cx):
+    """every task handle / inner subscription produced while the operator runs reaches the subscription handed back to the
+    caller (same rule as C02.U1): otherwise is_closed() answers true, and unsubscribe() returns, with that task still to run"""
+    from . import c02
+    out = []
+    for f in c02.u1(cx):
+        if cx.control:
+            continue
+        out.append(Finding(ID, 'K7', f.key, f.ok, f.msg, f.loc, f.witness))
     return out
